@@ -312,6 +312,15 @@ func genSignMsgTree(r *Rng, cfg GenCfg) *W {
 	return wTag(98, -1, wArr(-1, p, u, genPayloadTree(r), wArr(-1, sigs...)))
 }
 
+// otherCurve: mostly the curve asked for; sometimes one this library does not implement, a reserved or
+// private-use identifier, or one at the edge of the integer range
+func otherCurve(r *Rng, crv int64) int64 {
+	if r.Chance(5, 6) {
+		return crv
+	}
+	return pick(r, []int64{0, 1, 2, 3, 4, 5, 6, 7, 8, 9, 99, -1, -2, -3, -7, -65536, -65537, 1 << 31, -(1 << 31) - 1, 1<<63 - 1, -1 << 63})
+}
+
 // a COSE_Key map
 func genKeyTree(r *Rng) *W {
 	var kv []*W
@@ -319,7 +328,7 @@ func genKeyTree(r *Rng) *W {
 	case 0, 1: // EC2
 		crv := pick(r, []int64{1, 2, 3})
 		size := map[int64]int{1: 32, 2: 48, 3: 66}[crv]
-		kv = append(kv, wInt(1, -1), wInt(2, -1), wInt(-1, -1), wInt(crv, -1))
+		kv = append(kv, wInt(1, -1), wInt(2, -1), wInt(-1, -1), wInt(otherCurve(r, crv), -1))
 		if r.Chance(4, 5) {
 			kv = append(kv, wInt(-2, -1), wBstr(r.Bytes(size), -1), wInt(-3, -1), wBstr(r.Bytes(size), -1))
 		}
@@ -330,7 +339,7 @@ func genKeyTree(r *Rng) *W {
 			kv = append(kv, wInt(3, -1), wInt(map[int64]int64{1: -7, 2: -35, 3: -36}[crv], -1))
 		}
 	case 2: // OKP
-		kv = append(kv, wInt(1, -1), wInt(1, -1), wInt(-1, -1), wInt(6, -1))
+		kv = append(kv, wInt(1, -1), wInt(1, -1), wInt(-1, -1), wInt(otherCurve(r, 6), -1))
 		if r.Chance(4, 5) {
 			kv = append(kv, wInt(-2, -1), wBstr(r.Bytes(32), -1))
 		}
